@@ -147,6 +147,57 @@ class SimZk:
             client._lost()
         return True
 
+    def flap(self, sid):
+        """The connection of a session drops and comes back before the
+        session times out (the session survives, ephemerals stay), as the
+        kazoo client reports it (kazoo/client.py _session_callback):
+
+        * the state listeners see SUSPENDED;
+        * the client forgets every watch callback registered through it and
+          calls each of them once with an event of type NONE
+          (_reset_watchers).  The watches stay set on the server, but what
+          the server sends for them later finds no callback in the client,
+          unless a recipe registers its callback again (one watch per
+          session and path on the server, a set of callbacks in the client):
+          here the session's entries leave the watch tables and come back
+          with the next get/exists/get_children that passes the callback;
+        * the state listeners see CONNECTED.
+
+        Watch events already queued for the session stay queued (they had
+        reached the client).  The NONE events and whatever the listeners
+        spawn are queued behind them: when they run is the simulator's
+        decision (deliver).  Nothing can happen between the two state
+        changes: the connection was down between two calls of the process.
+
+        Returns the number of watch callbacks reset; None (and nothing
+        happens) when there is no such live session."""
+        sess = self.sessions.get(sid)
+        if sess is None or not sess.alive or sess.client is None:
+            return None
+        client = sess.client
+        self.stats['connection_flap'] += 1
+        client._state_change(KazooState.SUSPENDED)
+        callbacks = []
+        for table in (self.child_watches, self.data_watches):
+            for path in sorted(table):
+                keep = []
+                mine = []            # (a set per path in the client)
+                for entry in table[path]:
+                    if entry[0] != sid:
+                        keep.append(entry)
+                    elif not any(entry[1] == cb for cb in mine):
+                        mine.append(entry[1])
+                callbacks.extend(mine)
+                if keep:
+                    table[path] = keep
+                else:
+                    del table[path]
+        event = WatchedEvent(EventType.NONE, KeeperState.CONNECTING, None)
+        for callback in callbacks:
+            sess.queue.append((callback, event))
+        client._state_change(KazooState.CONNECTED)
+        return len(callbacks)
+
     # -- tree primitives (server side, no permission model)
     def _bump(self):
         self.zxid += 1
@@ -409,6 +460,15 @@ class SimZkClient:
         self.state = KazooState.LOST
         for listener in list(self._listeners):
             listener(KazooState.LOST)
+
+    def _state_change(self, state):
+        """kazoo/client.py _make_state_change (used by SimZk.flap)."""
+        if self.state == state:
+            return
+        self.state = state
+        for listener in list(self._listeners):
+            if listener(state) is True:
+                self.remove_listener(listener)
 
     def _retry(self, func, *args, **kwargs):
         return func(*args, **kwargs)
